@@ -136,7 +136,24 @@ def gen_mk_op(rng):
     return {"op": "mk", "what": what, "world": w}
 
 
-def gen_client_program(rng, w, task_idx, calcs, shots, n_ops, raising_calcs, allow=("fire", "zero", "elev", "danger", "mk", "powder")):
+def gen_fire_tmp(rng, calc, family):
+    """fire with objects that live only for this operation; within one task the tables of these throw-away models
+    belong to ONE family (same shipped table, stride and offset => same length, different contents), the situation in
+    which a cache keyed by object identity or by a weak summary goes stale"""
+    w = empty_world()
+    w["tables"].append(dict(family, cd_scale=round(rng.uniform(0.5, 1.6), 3), mach_scale=round(rng.uniform(0.9, 1.1), 3)))
+    w["dms"].append({"table": 0, "bc": gen.pick(rng, [0.25, 0.3, 0.3, 0.45]), "weight": [150.0, "Grain"],
+                     "diameter": [0.308, "Inch"], "length": [1.2, "Inch"]})
+    w["ammos"].append({"dm": 0, "mv": [gen.pick(rng, [2400.0, 2700.0, 2700.0, 3000.0]), "FPS"]})
+    w["weapons"].append({"sight_height": [2.0, "Inch"], "twist": [10.0, "Inch"], "zero": [0.08, "Degree"]})
+    w["atmos"].append({"kind": "icao", "altitude": [gen.pick(rng, [0.0, 1500.0]), "Foot"]})
+    w["shots"].append({"weapon": 0, "ammo": 0, "atmo": 0, "winds": None, "look": [0.0, "Degree"],
+                       "relative": [0.0, "Degree"], "cant": [0.0, "Degree"]})
+    return {"op": "fire_tmp", "calc": calc, "world": w, "range": [gen.pick(rng, [200.0, 300.0]), "Yard"],
+            "step": [100.0, "Yard"]}
+
+
+def gen_client_program(rng, w, task_idx, calcs, shots, n_ops, raising_calcs, allow=("fire", "zero", "elev", "danger", "mk", "powder", "fire_tmp", "edit")):
     """calcs: list of calc ids owned by the task; raising_calcs: {cid: kind}.  Every calc is created by a new_calc
     op before its first use (sometimes late, so creation interleaves with other tasks' work)."""
     prog = []
@@ -145,6 +162,7 @@ def gen_client_program(rng, w, task_idx, calcs, shots, n_ops, raising_calcs, all
     prog.append({"op": "new_calc", "calc": pending.pop(0)})
     created.append(prog[0]["calc"])
     own_ammos = []
+    family = {"kind": "derived", "name": gen.pick(rng, gen.SHIPPED_TABLES), "stride": rng.randint(1, 3), "offset": rng.randint(0, 2)}
     while len(prog) < n_ops:
         if pending and rng.random() < 0.3:
             c = pending.pop(0)
@@ -196,10 +214,44 @@ def gen_client_program(rng, w, task_idx, calcs, shots, n_ops, raising_calcs, all
             continue
         elif kind == "mk":
             prog.append(gen_mk_op(rng))
+        elif kind == "edit":
+            # the caller changes a field of an object it owns between computations (holds, a different load, ...)
+            if not own_ammos and rng.random() < 0.5:
+                continue
+            tgt = gen.pick(rng, ["shot", "weapon", "ammo", "dm", "dm"] if own_ammos else ["shot", "shot", "weapon"])
+            if tgt in ("ammo", "dm"):
+                s = next(k for k in shots if w["shots"][k]["ammo"] == own_ammos[0])
+            # computation - edit - the same computation again: the second must see the edit
+            around = {"op": "fire", "calc": c, "shot": s, "range": gen_range(rng, 100, 400), "step": [100.0, "Yard"]}
+            prog.append(dict(around))
+            if tgt == "shot":
+                f = gen.pick(rng, ["relative_angle", "relative_angle", "look_angle", "cant_angle"])
+                v = gen.gen_angle_deg(rng, round(rng.uniform(-0.5, 2.0) if f != "cant_angle" else rng.uniform(-10, 10), 3))
+                prog.append({"op": "edit", "kind": "shots", "index": s, "field": f, "value": v})
+            elif tgt == "weapon":
+                f = gen.pick(rng, ["sight_height", "twist"])
+                v = [round(rng.uniform(1.0, 3.5), 2), "Inch"] if f == "sight_height" else [gen.pick(rng, [8.0, 9.0, 12.0, -10.0]), "Inch"]
+                prog.append({"op": "edit", "kind": "weapons", "index": w["shots"][s]["weapon"], "field": f, "value": v})
+            elif tgt == "ammo":
+                prog.append({"op": "edit", "kind": "ammos", "index": own_ammos[0], "field": "mv",
+                             "value": [round(rng.uniform(2300, 3100), 1), "FPS"]})
+            else:
+                did = w["ammos"][own_ammos[0]]["dm"]
+                if rng.random() < 0.5:
+                    prog.append({"op": "edit", "kind": "dms", "index": did, "field": "BC", "value": round(rng.uniform(0.2, 0.6), 3)})
+                else:
+                    prog.append({"op": "edit", "kind": "dms", "index": did, "field": "CD@%d" % rng.randrange(5, 40),
+                                 "value": round(rng.uniform(0.15, 0.6), 4)})
+            if prog[-1].get("op") == "edit":
+                prog.append(dict(around))
+        elif kind == "fire_tmp":
+            for _ in range(rng.randint(1, 3)):          # in bursts: each one frees its objects before the next is built
+                prog.append(gen_fire_tmp(rng, c, family))
         elif kind == "powder":
             # ammunition calibrated by this task must be owned by it: add a private ammo + shot
             if not own_ammos:
-                a = {"dm": rng.randrange(len(w["dms"])), "mv": [round(rng.uniform(2300, 3000), 1), "FPS"],
+                w["dms"].append(dict(w["dms"][rng.randrange(len(w["dms"]))]))      # a private drag model too
+                a = {"dm": len(w["dms"]) - 1, "mv": [round(rng.uniform(2300, 3000), 1), "FPS"],
                      "powder_temp": [15.0, "Celsius"], "use_ps": True}
                 w["ammos"].append(a)
                 aid = len(w["ammos"]) - 1
